@@ -106,6 +106,30 @@ PROPS["C09"] = {
     "exhaustive_note": "all token sequences of length 3 over the full vocabulary (quick+thorough), length 4 over class representatives (thorough)",
 }
 
+PROPS["C05"] = {
+    "kind": "harness", "test": "TestC05", "level": "exploration",
+    "tiers": tiers(400, 4, 4000, 16),
+    "rule": "rapid-generated (table, query) pairs: a table of 2-5 NULL-free columns over all four types with 0-40 rows from small value domains (ties, duplicates, empty tables), and 1-10 SELECTs over it written as SQL text with layout variations: "
+            "select list * or 1-4 items (columns, optionally qualified by table name or alias; comparison/boolean expressions; literals; aliases with or without AS), WHERE = OR-of-ANDs of well-typed comparisons (column/literal in either order, column/column), "
+            "ORDER BY 0-3 output columns by name, alias or qualified name with ASC/DESC/default, LIMIT and OFFSET in either order with values around the result size. Oracle: reference evaluator (harness/ref); without ORDER BY exact sequence, with ORDER BY a validity predicate "
+            "(length, sort-key tuples of the window, per-key-class sub-multiset) that accepts every order of tied rows; header names compared. Non-trivial: WHERE mixing AND and OR over >=3 comparisons, or >=2 sort keys with a tie on the first, or OFFSET/LIMIT cutting through the result, with a filter keeping neither nothing nor everything; distinct by (table, rows, query) JSON.",
+    "technique": "property-based differential testing (rapid) against an independent reference evaluator; tie-tolerant validity predicate for ORDER BY",
+    "level_text": "Random search over tables and grammar-derived queries compared with a reference meaning. Search, not proof.",
+    "level_note": "Trusted: harness/ref evaluator and model. Only well-typed queries over NULL-free columns (the property's domain); ORDER BY keys are output columns (the engine documents ErrSortFieldNotFound otherwise).",
+}
+
+PROPS["C06"] = {
+    "kind": "harness", "test": "TestC06", "level": "exploration",
+    "tiers": tiers(400, 4, 4000, 16),
+    "rule": "rapid-generated cases: 1-3 tables (INT key over {0..3} so keys repeat and rows stay unmatched, shared and table-unique column names, 0-12 rows, empty tables included) and 1-8 queries with a left-deep chain of 1-2 joins "
+            "(JOIN / INNER JOIN / LEFT JOIN / RIGHT JOIN, the same table twice under two aliases allowed), ON = 1-2 comparisons (=, <, !=, >=; AND or OR) between columns of tables that cannot be NULL-padded at that point, "
+            "select list * or qualified/unique-unqualified columns, optional WHERE on a never-padded column, all as SQL text; 1 in 6 queries misaddresses a column on purpose (unqualified but present on both sides; name-qualified although aliased; unknown) and must be rejected. "
+            "Oracle: reference nested loops + NULL padding compared as multisets of value tuples, headers compared. Non-trivial: two-join chain, or self-join, or a NULL-padded row together with a duplicated join key, or a must-be-rejected query; distinct by (tables, query) JSON.",
+    "technique": "property-based differential testing (rapid) against a reference join evaluator, multiset comparison; negative cases for addressing rules",
+    "level_text": "Random search over small tables and join chains against the relational definition. Search, not proof.",
+    "level_note": "Trusted: harness/ref. ON/WHERE never touch NULL-padded columns (SQL three-valued logic is outside the property). Result order is not compared.",
+}
+
 HOOK_COMMITS = ["7ca683e"]
 
 NOT_APPLICABLE = {}
